@@ -10,13 +10,15 @@ contract('parso.python.errors.ErrorFinder.add_issue',
          requires=['(code == 901 and message.startswith("SyntaxError: ")) or '
                    '(code == 903 and message.startswith("IndentationError: "))',
                    'node is not None'],
-         ensures=[], trusted=True,
+         ensures=[], trusted=True, modifies=['issues', '_error_dict', '$maps', 'code', 'message', 'start_pos', 'end_pos'], lists='*',
          note='only the precondition is used (checked at the call sites); the first-issue-per-line rule of the body is '
               'covered by the bounded stand-in')
 contract('parso.python.errors.ErrorFinder._add_syntax_error',
-         params={'self': 'ref:ErrorFinder', 'node': 'ref', 'message': 'str'}, requires=['node is not None'], props=['C13'])
+         params={'self': 'ref:ErrorFinder', 'node': 'ref', 'message': 'str'}, requires=['node is not None'],
+         modifies=['issues', '_error_dict', '$maps'], lists='*', props=['C13'])
 contract('parso.python.errors.ErrorFinder._add_indentation_error',
-         params={'self': 'ref:ErrorFinder', 'spacing': 'ref', 'message': 'str'}, requires=['spacing is not None'], props=['C13'])
+         params={'self': 'ref:ErrorFinder', 'spacing': 'ref', 'message': 'str'}, requires=['spacing is not None'],
+         modifies=['issues', '_error_dict', '$maps'], lists='*', props=['C13'])
 
 # an Issue copies its range from the node it is given
 contract('parso.normalizer.Issue.__init__',
@@ -36,4 +38,4 @@ contract('parso.normalizer.Normalizer.add_issue',
                    'not (self.issues[i].code == self.issues[j].code and self.issues[i].start_pos == self.issues[j].start_pos)))'],
          ensures=['forall(lambda i, j: implies(0 <= i and i < j and j < len(self.issues), '
                   'not (self.issues[i].code == self.issues[j].code and self.issues[i].start_pos == self.issues[j].start_pos)))'],
-         props=['C20'])
+         modifies=['issues'], lists=['self.issues'], props=['C20'])
